@@ -98,9 +98,29 @@ func (h H) openStorageRebuild(rule string) {
 							return true
 						}
 					}
+					// a log that contains the snapshot index does not end before it
+					if a.Implies(core.BoolAtom("(*log.Log).Contains("+stg+".log, "+f+")", true)) {
+						return true
+					}
 				}
 				return false
 			}, nil, func(in ssa.Instruction) bool { return h.P.IsCallTo(in, reset) })
+			// …nor may it be kept when it holds, at the snapshot index, another
+			// term than the snapshot's: the install handler had decided to discard
+			// such a log and died before doing so (F27). The tail is adopted only
+			// if the log does not contain the snapshot index, or the terms agree
+			r2 := fi.MustCrossOrPass(s.Instr, func(a core.Atom) bool {
+				for _, f := range snapIndexForms(stg) {
+					if a.Implies(core.BoolAtom("(*log.Log).Contains("+stg+".log, "+f+")", false)) {
+						return true
+					}
+					if a.Implies(core.MkAtom("(*storage).getEntryTerm("+stg+", "+f+")#0", "==", stg+".snaps.term")) {
+						return true
+					}
+				}
+				return false
+			}, nil, func(in ssa.Instruction) bool { return h.P.IsCallTo(in, reset) })
+			h.C.Check(rule+" log-agrees-with-snapshot", "openStorage store lastLogIndex := "+v, r2.OK, h.pos(s.Instr), "on restart a log that contains the latest snapshot's index is kept without comparing its term there with the snapshot's (a crash between snapshotSink.done and clearLog in the install handler leaves a log whose entries up to the snapshot index conflict with the committed ones; they stay in the log and a later leadership serves them to followers): "+r2.Witness)
 			h.C.Check(rule+" log-not-behind-snapshot", "openStorage store lastLogIndex := "+v, r.OK, h.pos(s.Instr), "on restart the last log entry is adopted as the node's last index even when it lies below the latest snapshot index (a crash between snapshotSink.done and clearLog leaves exactly that state): the log is then not contiguous with the snapshot and the next append trips appendEntry's assertion")
 		}
 	}
